@@ -446,38 +446,127 @@ def _vector_case(which, sh, got, ex):
 
 # ---------------------------------------------------------------------------------------------- R05.3
 def _shortcuts(prog, rep):
-    for q in ("optyx.analysis:extract_all_linear_coefficients", "optyx.analysis:_try_extract_fast_binop"):
-        fi = prog.func(q)
-        for n in walk_local(fi.node):
-            if not (isinstance(n, ast.Return) and isinstance(n.value, ast.Call)):
+    """R05.3: the O(1) shortcuts of the coefficient extractor are sound only if the node's VectorVariable covers all n
+    columns and starts at column 0 (then column order = element order) and the other operand contributes nothing.
+    Decided by walking the two functions symbolically under every (node configuration, covers?, first-at-0?, other
+    operand constant?) scenario: a shortcut value (np.ones / np.full / coefficients copy) may be returned only in the
+    all-true scenario, and there it must be the value the general walker computes.  Locals, helper predicates and
+    the shape of the guard ladder are free."""
+    from ..symexec import SymWalker
+
+    top = prog.func("optyx.analysis:extract_all_linear_coefficients")
+    fb = prog.func("optyx.analysis:_try_extract_fast_binop")
+    V, E, C, X = "VectorVariable", "VectorSum", "Constant", "Variable"
+    configs = [
+        ("VectorSum@top", top, {"expr": E, "expr.vector": V}, None, "expr.vector", None, "ones"),
+        ("LinearCombination@top", top, {"expr": "LinearCombination", "expr.vector": V}, None, "expr.vector", None, "coeffs:expr"),
+        ("VectorSum@addsub", fb, {"expr": "BinaryOp", "expr.left": E, "expr.left.vector": V}, "+", "expr.left.vector", "expr.right", "ones"),
+        ("LinearCombination@addsub", fb, {"expr": "BinaryOp", "expr.left": "LinearCombination", "expr.left.vector": V}, "+", "expr.left.vector", "expr.right", "coeffs:expr.left"),
+        ("VectorSum*c@mul-left", fb, {"expr": "BinaryOp", "expr.right": E, "expr.right.vector": V}, "*", "expr.right.vector", "expr.left", "full:expr.left"),
+        ("VectorSum*c@mul-right", fb, {"expr": "BinaryOp", "expr.left": E, "expr.left.vector": V}, "*", "expr.left.vector", "expr.right", "full:expr.right"),
+    ]
+
+    def is_shortcut(v):
+        if not isinstance(v, ast.Call):
+            return False
+        f = dotted(v.func) or src(v.func)
+        return f in ("np.ones", "np.full") or f.endswith(".copy") or (f in ("np.asarray", "np.array") and "coefficients" in src(v))
+
+    n_short = 0
+    for key, fi, cfg0, op, vecpath, otherpath, form in configs:
+        results = {}
+        for covers in (True, False):
+            for first0 in (True, False):
+                for other_const in ((True, False) if otherpath else (True,)):
+                    cfg = dict(cfg0)
+                    if otherpath:
+                        cfg[otherpath] = C if other_const else X
+
+                    def facts(t, cfg=cfg, covers=covers, first0=first0):
+                        if isinstance(t, ast.Call) and dotted(t.func) == "isinstance" and len(t.args) == 2:
+                            what = src(t.args[0])
+                            kinds = [src(e) for e in (t.args[1].elts if isinstance(t.args[1], ast.Tuple) else [t.args[1]])]
+                            if what in cfg:
+                                k = cfg[what]
+                                return any(k == k2 or (k in prog.classes and k2 in prog.classes and prog.is_subclass(k, k2)) for k2 in kinds)
+                            # a path not fixed by the configuration (e.g. the other side of a product): not that kind
+                            if what.startswith("expr"):
+                                return False
+                            return None
+                        if isinstance(t, ast.Call) and dotted(t.func) == "hasattr" and len(t.args) == 2 and src(t.args[0]) in cfg:
+                            return None
+                        if isinstance(t, ast.Compare) and len(t.ops) == 1:
+                            l, r, o = src(t.left).replace(" ", ""), src(t.comparators[0]).replace(" ", ""), t.ops[0]
+                            if l == "expr.op" or r == "expr.op":
+                                other = t.comparators[0] if l == "expr.op" else t.left
+                                if isinstance(o, (ast.In, ast.NotIn)) and isinstance(other, (ast.Tuple, ast.List, ast.Set)):
+                                    hit = op in [e.value for e in other.elts if isinstance(e, ast.Constant)]
+                                    return hit if isinstance(o, ast.In) else (not hit)
+                                if isinstance(other, ast.Constant) and isinstance(o, (ast.Eq, ast.NotEq)):
+                                    hit = other.value == op
+                                    return hit if isinstance(o, ast.Eq) else (not hit)
+                            sides = {l, r}
+                            lens = {f"len({vecpath}._variables)", f"{vecpath}.size", f"len({vecpath})"}
+                            if "n" in sides and (sides & lens) and isinstance(o, (ast.Eq, ast.NotEq)):
+                                return covers if isinstance(o, ast.Eq) else (not covers)
+                            firsts = {f"var_index.get({vecpath}._variables[0].name,-1)", f"var_index[{vecpath}._variables[0].name]", f"var_index.get({vecpath}._variables[0].name)"}
+                            if "0" in sides and (sides & firsts) and isinstance(o, (ast.Eq, ast.NotEq)):
+                                return first0 if isinstance(o, ast.Eq) else (not first0)
+                            if (sides & firsts) and first0 and isinstance(t.comparators[0], ast.Constant) and isinstance(t.comparators[0].value, (int, float)) and l in firsts:
+                                c_ = t.comparators[0].value     # the index IS 0 in this scenario
+                                return {ast.Lt: 0 < c_, ast.LtE: 0 <= c_, ast.Gt: 0 > c_, ast.GtE: 0 >= c_}.get(type(o))
+                        return None
+
+                    w = SymWalker(prog, fi.module, facts, lambda st, env: None, non_none=())
+                    try:
+                        vals = w.returns(fi, {})
+                    except Exception as e:
+                        results = None
+                        rep.undecided(f"{fi.name}:{key}: symbolic walk failed ({type(e).__name__}: {e})")
+                        break
+                    hits = [(v, a) for v, a in zip(vals, w.last_assumed) if is_shortcut(v)]
+                    results[(covers, first0, other_const)] = hits
+                if results is None:
+                    break
+            if results is None:
+                break
+        if results is None:
+            continue
+        loc = fi.loc
+        pos = results.get((True, True, True), [])
+        if not pos:
+            continue            # this configuration has no shortcut (none is required)
+        n_short += 1
+        names = {0: "covers all n columns", 1: "first variable sits at column 0", 2: "the other operand is a Constant (contributes no coefficients)" if "mul" not in key else "the scalar factor is a Constant node"}
+        missing, unsure = [], []
+        for scen, hits in results.items():
+            if scen == (True, True, True) or not hits:
                 continue
-            f = dotted(n.value.func) or src(n.value.func)
-            if not (f in ("np.ones", "np.full") or ".copy" in f):
-                continue
-            gs = dominating_guards(n)
-            text = " && ".join(src(t) for t, pol in gs if pol)
-            need = {
-                "vector is a VectorVariable": "VectorVariable)" in text,
-                "covers all n columns": "vec_n == n" in text,
-                "first variable sits at column 0": "first_idx == 0" in text,
-            }
-            kind = "VectorSum" if "VectorSum" in text else "LinearCombination"
-            # result form
-            if kind == "VectorSum":
-                form_ok = f in ("np.ones", "np.full")
-            else:
-                form_ok = "coefficients" in src(n.value)
-            scaled = f == "np.full"
-            if scaled:
-                need["the scalar factor is a Constant node"] = "Constant)" in text and ("expr.left, Constant" in text or "expr.right, Constant" in text)
-                form_ok = form_ok and ("expr.left.value" in src(n.value) or "expr.right.value" in src(n.value))
-            if "expr.op in" in text and "BinaryOp" not in kind:
-                need["the other operand is a constant (ignored)"] = "isinstance(expr.right, (Constant, int, float))" in text
-            missing = [k for k, v in need.items() if not v]
-            rep.ob("R05.3", f"{fi.name}:{kind}{'*c' if scaled else ''}@{_opkey(text)}", not missing and form_ok,
-                   f"O(1) shortcut guarded by: {', '.join(need)}" if not missing and form_ok else
-                   (f"O(1) shortcut is taken without requiring: {', '.join(missing)}" if missing else f"shortcut returns {src(n.value)[:50]}, not what the general walker returns for a {kind}"),
-                   loc=f"{fi.module.rel}:{n.lineno}", detail="guards")
+            # an assumed test on the very quantity the requirement is about (e.g. `first index >= 0` instead of
+            # `== 0`) is understood: it is simply too weak.  Only tests on something else are uninterpretable.
+            quantities = [f"len({vecpath}._variables)", f"{vecpath}.size", f"len({vecpath})", f"var_index.get({vecpath}._variables[0].name,-1)", f"var_index[{vecpath}._variables[0].name]", f"var_index.get({vecpath}._variables[0].name)"]
+            relevant = [a for _v, assumed in hits for a in assumed if any(tok in a for tok in ("var_index", "len(", "_variables", ".size")) and not any(qt in a.replace(" ", "") for qt in quantities)]
+            which = [names[i] for i, ok_ in enumerate(scen) if not ok_]
+            if len(which) == 1:
+                (unsure if relevant else missing).append(which[0])
+        missing = sorted(set(missing))
+        unsure = sorted(set(unsure) - set(missing))
+        v = pos[0][0]
+        text = src(v).replace(" ", "")
+        if form == "ones":
+            form_ok = text.startswith("np.ones(n")
+        elif form.startswith("coeffs:"):
+            form_ok = f"{form.split(':')[1]}.coefficients" in text and "np.ones" not in text
+        else:
+            form_ok = text.startswith("np.full(n,") and f"{form.split(':')[1]}.value" in text
+        if not missing and unsure:
+            rep.undecided(f"{fi.name}:{key}: the shortcut is guarded by a test this rule cannot interpret ({unsure}); not decided")
+            continue
+        rep.ob("R05.3", f"{fi.name}:{key}", not missing and form_ok,
+               "O(1) shortcut is returned only when the vector covers all n columns starting at column 0" + (" and the other operand is a Constant" if otherpath else "") if not missing and form_ok else
+               (f"O(1) shortcut is taken without requiring: {', '.join(missing)}" if missing else f"shortcut returns {src(v)[:60]}, not what the general walker returns here"),
+               loc=loc, detail="guards", extra={"scenarios": len(results)})
+    rep.saw("shortcut configurations with an O(1) path", n_short)
 
 
 def _opkey(text):
